@@ -170,6 +170,10 @@ func init() {
 	add(word("$(($v+é))", wAE(wPE("v"), wLit("+é"))))
 	add(word(`$((é+"d"))`, wAE(wLit("é+"), wDQ(wLit("d")))))
 	add(word("$((1 + $v))", wAE(wLit("1"), wLit("+"), wPE("v"))))
+	add(word("$((é + 1))", wAE(wLit("é"), wLit("+"), wLit("1"))))
+	add(word("$((é  + $v))", wAE(wLit("é"), wLit("+"), wPE("v"))))
+	add(word("$(($é 1))", wAE(wPE("é"), wLit("1"))))
+	add(sym{text: "((é + 1))", kind: kArith, parts: func() ast.Word { return ast.Word{wLit("é"), wLit("+"), wLit("1")} }})
 	add(sym{text: "((é+$v))", kind: kArith, parts: func() ast.Word { return ast.Word{wLit("é+"), wPE("v")} }})
 	// a "$" that introduces nothing is an ordinary character (go.sh keeps it as a literal part of its own)
 	add(word("$", wLit("$")))
